@@ -555,6 +555,16 @@ func (g *G) fundef(d int, gen bool) string {
 func (g *G) Session() []string {
 	g.scopes = [][]*vinfo{nil}
 	res := g.helpers()
+	if g.pick(4) > 0 {
+		// variables of every type from the start, so that operands are names as often as literals
+		for _, b := range []struct {
+			name, val string
+			t         ty
+		}{{"gsa", `"ab"`, tStr}, {"gsb", `"xyz"`, tStr}, {"gaa", "[1, 2]", tArr}, {"gab", "[7]", tArr}, {"gia", "3", tInt}, {"gfa", "1.5", tFloat}, {"gba", "true", tBool}} {
+			res = append(res, b.name+" = "+b.val)
+			g.def(&vinfo{name: b.name, t: b.t, assign: true})
+		}
+	}
 	n := 3 + g.pick(8)
 	for i := 0; i < n; i++ {
 		g.fuel = 40 + g.pick(100)
